@@ -655,12 +655,31 @@ func c11WideUnit(r *vrng) (bits, w int) {
 	return
 }
 
+// c11ConnBuf is a Connection element with n bytes of BufferData: 02 11 PkgLength 0a n bytes
+func c11ConnBuf(r *vrng, n int) (string, []byte) {
+	data := make([]byte, n)
+	for i := range data {
+		if r != nil {
+			data[i] = byte(r.next())
+		} else {
+			data[i] = byte(0x11 * (i + 1))
+		}
+	}
+	body := append([]byte{0x0a, byte(n)}, data...)
+	w := 1
+	if r != nil && r.chance(25) {
+		w = 2 + r.intn(3)
+	}
+	enc := append([]byte{2, 0x11}, c12EncPkgLen(uint32(w+len(body)), w)...)
+	return fmt.Sprintf("b%d:%s", w, amlHex(data)), append(enc, body...)
+}
+
 // fieldUnits fills a Field/IndexField/BankField with n field-list elements declared in `scope`
 func (g *c11Gen) fieldUnits(f *c11List, scope []string, n int) {
 	r := g.r
 	wide := 0 // at most three wide elements per list: offsets stay below 2^32
 	for u := n; u > 0; u-- {
-		switch r.intn(6) {
+		switch r.intn(10) {
 		case 0:
 			bits := r.intn(300)
 			w := 1
@@ -680,6 +699,18 @@ func (g *c11Gen) fieldUnits(f *c11List, scope []string, n int) {
 			ty, at := r.intn(6), r.intn(16)
 			f.units = append(f.units, fmt.Sprintf("a%d:%d", ty, at))
 			f.uenc = append(f.uenc, []byte{1, byte(ty), byte(at)})
+		case 2: // ExtendedAccessField
+			ty, at, ln := r.intn(6), r.intn(16), r.intn(256)
+			f.units = append(f.units, fmt.Sprintf("x%d:%d:%d", ty, at, ln))
+			f.uenc = append(f.uenc, []byte{3, byte(ty), byte(at), byte(ln)})
+		case 3: // Connection with a NameString (at any position of the list, several per list)
+			seg := fmt.Sprintf("CN%c%c", 'A'+byte(r.intn(26)), '0'+byte(r.intn(10)))
+			f.units = append(f.units, "c"+seg)
+			f.uenc = append(f.uenc, append([]byte{2}, seg...))
+		case 4: // Connection with BufferData
+			u, e := c11ConnBuf(r, r.intn(6))
+			f.units = append(f.units, u)
+			f.uenc = append(f.uenc, e)
 		default:
 			useg := g.fresh('F', scope)
 			g.declare(scope, useg, "field")
@@ -912,6 +943,30 @@ func TestVerifC11(t *testing.T) {
 	flist := func(kind string, n1, n2 c11Name, val c11Int, flags uint64, units ...string) c11Node {
 		l := &c11List{kind: kind, name: n1, name2: n2, val: val, ints: []uint64{flags}}
 		for _, u := range units {
+			if strings.HasPrefix(u, "@") { // @cSEG | @bN | @aT:A | @xT:A:L
+				switch u[1] {
+				case 'c':
+					l.units = append(l.units, "c"+u[2:])
+					l.uenc = append(l.uenc, append([]byte{2}, u[2:]...))
+				case 'b':
+					var n int
+					fmt.Sscanf(u[2:], "%d", &n)
+					us, e := c11ConnBuf(nil, n)
+					l.units = append(l.units, us)
+					l.uenc = append(l.uenc, e)
+				case 'a':
+					var ty, at int
+					fmt.Sscanf(u[2:], "%d:%d", &ty, &at)
+					l.units = append(l.units, fmt.Sprintf("a%d:%d", ty, at))
+					l.uenc = append(l.uenc, []byte{1, byte(ty), byte(at)})
+				case 'x':
+					var ty, at, ln int
+					fmt.Sscanf(u[2:], "%d:%d:%d", &ty, &at, &ln)
+					l.units = append(l.units, fmt.Sprintf("x%d:%d:%d", ty, at, ln))
+					l.uenc = append(l.uenc, []byte{3, byte(ty), byte(at), byte(ln)})
+				}
+				continue
+			}
 			var nm string
 			var bits int
 			fmt.Sscanf(u[strings.Index(u, ":")+1:], "%d", &bits)
@@ -1003,6 +1058,18 @@ func TestVerifC11(t *testing.T) {
 				"WF05:65536", ":4096", "WF06:1048575", "WF07:1048576", ":65536")), three("WB0"),
 			one(flist("field", N(false, 0, "WR00"), noName, c11Int{}, 3, ":1048576", "WF08:268435455", "WF09:1", ":268435455", "WF0A:7")), three("WC0"),
 			one(flist("ifield", N(false, 0, "WF00"), N(false, 0, "WF01"), c11Int{}, 1, "WI00:65536", ":1048575", "WI01:1048576", "WI02:268435455", "WI03:3")), three("WD0"))),
+		// Connection elements (NameString and BufferData form) at every position of a field list: first, after named
+		// units, after ReservedField gaps, after AccessField / ExtendedAccessField, last, several per list (seeded change G)
+		c11Hand("b-field-connections", "indexfield", cat(
+			one(region("CR00", 0, c11Int{2, 0x4000}, c11Int{2, 0x400})), three("CA0"),
+			one(flist("field", N(false, 0, "CR00"), noName, c11Int{}, 1, "@cGPI0", "CF00:8", "@cGPI1", "CF01:8", ":16", "@b4", "CF02:4", "@a2:1", "@cGPI2",
+				"CF03:12", "@x3:2:7", "@b0", "CF04:1", "CF05:7", "@cGPI3", "@b2", "CF06:32", ":8", "@cGPI4", "CF07:8", "@b1")), three("CB0"),
+			one(flist("field", N(false, 0, "CR00"), noName, c11Int{}, 2, "CG00:16", "CG01:16", "@b3", "CG02:64", "@cGPI5", ":65", "CG03:4095", "@b5", "CG04:1")), three("CC0"),
+			one(flist("ifield", N(false, 0, "CF00"), N(false, 0, "CF01"), c11Int{}, 1, "CI00:8", "@cGPI6", "CI01:8", ":8", "@b2", "CI02:16", "@a1:0", "@cGPI7", "CI03:3")), three("CD0"))),
+		c11Hand("b-bankfield-connections", "bankfield-deferred", cat(
+			one(region("CR10", 1, c11Int{2, 0x300}, c11Int{2, 0x100})),
+			one(flist("field", N(false, 0, "CR10"), noName, c11Int{}, 1, "CB10:8", "@cGPJ0", "CB11:8")),
+			one(flist("bfield", N(false, 0, "CR10"), N(false, 0, "CB10"), c11Int{1, 1}, 1, "CK00:8", "@cGPJ1", "CK01:8", ":8", "@b3", "CK02:16", "@cGPJ2", "@b1", "CK03:5")), three("CE0"))),
 		c11Hand("b-bankfield-wide-units", "bankfield-deferred", cat(
 			one(region("WR10", 1, c11Int{2, 0x200}, c11Int{2, 0x100})),
 			one(flist("field", N(false, 0, "WR10"), noName, c11Int{}, 1, "WB10:8", "WB11:65536", ":65535")),
